@@ -52,6 +52,9 @@ CHECKS = {
         "exhausted reads give 0/empty. Termination (Properties/C03T.v): progress_okT E cls mode (decidable, evaluated per class on every run; refuses only the F4 shape on all generated trees) implies the "
         "deserializer never runs out of fuel, hence with wf_class the only possible failure is the documented ValueError; delimited loops always terminate (chunk start strictly advances). Termination for EVERY accepted "
         "spec is false (known finding F4: the model returns EFuel, the code hangs). "
+        "Acceptance implies well-formedness (Properties/C03W.v): for every specification the (model of the) generator accepts, wf_pkg follows under decidable hypotheses that spell out "
+        "'non-degenerate' (distinct class names, no length field named like a switch's _data member, no zero-size array elements), no recursive struct, no referenced optional length field (F12); "
+        "each hypothesis is shown necessary by an accepted tree; the check evaluates them on every accepted tree. "
         "Tie: generated deserializers vs model on valid serializations, every prefix, 0x00/0xFE/0xFF-biased edits, junk, random bytes, both entry modes.",
    technique="Coq proof (reader invariant preserved through the deserializer semantics, error-kind analysis under a decidable well-formedness check) + differential correspondence on hostile bytes",
    note=GEN_NOTE + "'Deserializations whose hostile length fields make CPython loop thousands of times are checked by the oracle but excluded from the in-Coq evaluation (marked heavy).", ref="8 (C03)"),
